@@ -23,6 +23,19 @@ def mon(w):
         if c.app.closed > 1:
             w.flag("closed-once", "c%d" % c.ci, "client %d closed %d times" % (c.ci, c.app.closed))
         # cover: remember every Manager state in which close() was issued
+    # "listeners, pending attempts ... are shut down and the closed notification fires": in every state in which the application has
+    # been told closed, the closed side owns no listening port and no connection attempt that is still in flight (an attempt
+    # that nobody answers would otherwise stay pending for ever; at quiescence it has always been answered)
+    for c in w.clients:
+        if c.app.closed >= 1 and w.net is not None:
+            host = PEER_HOSTS[c.ci]
+            for a in w.net.attempts:
+                if a.reactor.name == host and a.state == "connecting":
+                    w.flag("resources-freed", "pending-attempt-at-closed",
+                           "client %d has been told closed but its connection attempt to %s:%d is still in flight" % (c.ci, a.host, a.port))
+            for (h, p), port in w.net.listeners.items():
+                if h == host and port.listening:
+                    w.flag("resources-freed", "listener-at-closed", "client %d has been told closed but still listens on %s:%d" % (c.ci, h, p))
     cov = w.__dict__.setdefault("_close_states", set())
     for c in w.clients:
         if c.ghost["cause"] is not None and c.ghost["cause"][0] == "close" and not c.ghost.get("close_state_recorded"):
